@@ -398,6 +398,8 @@ def mut_shadow(rng, p):
         vs = []
         for k in range(bi + 1):
             vs += item_binds(r["body"][k])
+        if not vs:
+            raise NoSite()
         x, y = rng.choice(vs), rng.choice(vs)
         r["body"][bi] = ("clause", it[1], it[2], list(it[3]) + [("iflet", x, "predpos", [y]) if rng.random() < 0.5 else ("let", x, "incs", [y])])
     else:
@@ -543,14 +545,14 @@ def mut_empty_lattice(rng, p):
 
 
 def mut_agg_unbound(rng, p):
-    """aggregated variable that is not an argument of the aggregated relation (not one of the listed classes;
-    the statement 'the macros never panic' is what is at stake)"""
+    """aggregated variable that is not an argument of the aggregated relation (the macro used to panic on it;
+    an error of its own since commit 9b40028)"""
     rules = _rules(p)
     if not rules:
         raise NoSite()
     r = rng.choice(rules)
     r["body"].insert(rng.randrange(len(r["body"]) + 1), ("agg", "c15u", "sum", ["c15y"], AUX, [("w",)]))
-    return dict(cls="agg_unbound", detail=None)
+    return dict(cls="agg_unbound", detail=["c15y", AUX])
 
 
 def mut_capture(rng, p, uniq):
@@ -561,9 +563,12 @@ def mut_capture(rng, p, uniq):
     w = v + "_" + (str(k) if k else "")
     p["items"].append(("rel", "c15_t", ["i32", "i32", "i32"], False, []))
     p["items"].append(("rel", "c15_u", ["i32", "i32"], False, []))
-    form = rng.choice(["same_clause", "same_clause", "other_clause"])
+    form = rng.choice(["same_clause", "same_clause", "other_clause", "later_binder"])
     if form == "same_clause":
         body = [("clause", "c15_t", [("v", v), ("v", v), ("v", w)], [])]
+    elif form == "later_binder":
+        binder = rng.choice([("cond", ("let", w, "incs", [v])), ("gen", w, "upto", [v]), ("cond", ("iflet", w, "predpos", [v]))])
+        body = [("clause", "c15_t", [("v", v), ("v", v), ("w",)], []), binder]
     else:
         body = [("clause", AUX, [("v", w)], []), ("clause", "c15_t", [("v", v), ("v", v), ("w",)], [])]
     p["items"].append(("rule", 0, dict(heads=[("c15_u", [("v", v), ("v", w)])], body=body)))
